@@ -306,7 +306,7 @@ impl Prop for C08 {
         true
     }
     fn rule(&self) -> &'static str {
-        "For each generated ProgGen program of n <= ~14 statements: the valid program and an out-of-reach label reference (BR/LD/LEA/ST/JSR in turn) placed at EVERY statement position 0..n (padding barely / comfortably / far beyond the field's reach), and a backward reference from the last to the first statement in programs of exactly 255..259 and 300 words, x destination {absent, pre-existing with known contents, pre-existing and longer than the new image, the new image followed by further words (object file of a longer version of the program), the first half of the new image, exactly the new image} x default / explicit destination; the valid program and one failing one under 20 kinds of file name (dotted stems, long, blank, leading dot, 2- and 3-byte characters up to and beyond 64 bytes at every byte-offset parity); and the destination faults {/dev/full, path in a non-existent directory, path that is a directory, read-only file}. `lace compile` is the real binary (guard off). \
+        "For each generated ProgGen program of n <= ~14 statements: the valid program and an out-of-reach label reference (BR/LD/LEA/ST/JSR in turn) placed at EVERY statement position 0..n (padding barely / comfortably / far beyond the field's reach, or placing the label exactly 32,767 / 32,768 / 32,769 words away), and a backward reference from the last to the first statement in programs of exactly 255..259 and 300 words, x destination {absent, pre-existing with known contents, pre-existing and longer than the new image, the new image followed by further words (object file of a longer version of the program), the first half of the new image, exactly the new image} x default / explicit destination; the valid program and one failing one under 20 kinds of file name (dotted stems, long, blank, leading dot, 2- and 3-byte characters up to and beyond 64 bytes at every byte-offset parity); and the destination faults {/dev/full, path in a non-existent directory, path that is a directory, read-only file}. `lace compile` is the real binary (guard off). \
          Oracle: exit 0 => the destination holds exactly origin ++ words of the RefAsm image (big-endian); exit != 0 => the destination's bytes / absence are exactly as before; a destination that cannot take the data must not end in exit 0. \
          Non-trivial: a failure is injected (emission position or I/O fault). Distinct = hash(source, destination state, fault). The enumerated fault set is complete per program (exhaustive over positions x destination states x listed faults); programs are sampled."
     }
